@@ -1085,7 +1085,9 @@ def calculate_cumulant_function(
         if frequency_shifts.shape != decay_amplitudes.shape:
             raise ValueError('Frequency shifts not same shape as decay amplitudes')
 
-    if d == 2 and pulse.basis.btype in ('Pauli', 'GGM'):
+    if (d == 2 and pulse.basis.btype in ('Pauli', 'GGM')
+            and pulse.basis.shape == (4, 2, 2) and pulse.basis == Basis.pauli(1)):
+        # Do not trust the label alone; indexing or reordering a basis retains it
         # Single qubit case. Can use simplified expression
         cumulant_function = np.zeros(decay_amplitudes.shape, decay_amplitudes.dtype)
         diag_mask = np.zeros((N, N), dtype=bool)
